@@ -266,6 +266,11 @@ static void do_op(int me, struct op *op)
 		if (got && got->key != key_val[k])
 			usim_fail("lfht-wrong-key", "lookup of key %d returned node %d of key %d", key_val[k], got->id, got->key);
 		wgl_end(H, j, got ? got->id : -1);
+		if (!got) {
+			/* an "absent" answer is an empty walk for the presence oracle */
+			int t = hor_trav_begin(k);
+			hor_trav_set_interval(t, H->ops[j].inv, H->ops[j].ret);
+		}
 		if (k >= 3 && !got)
 			usim_fail("lfht-resident-missed", "lookup of resident key %d (hash %#lx), which is never removed, returned NULL", key_val[k], key_hash[k]);
 		break;
@@ -318,12 +323,12 @@ static void *h_thread(void *arg)
 			usim_set_op("%d.%d cds_lfht_resize(%lu)", me, i, (unsigned long) op->v);
 		else
 			usim_set_op("%d.%d %s key%d", me, i, opname[op->kind], op->a);
-		/* qsbr: a registered thread is online whenever it uses the table, resize included
-		 * (the library's bucket population relies on the caller being online) */
-		if (F->is_qsbr)
+		/* qsbr: a registered thread is online whenever it uses the table */
+		/* resize is issued either way: the library must cope with an online or offline caller */
+		if (F->is_qsbr && !(op->kind == K_RESIZE && (op->b & 1)))
 			F->thread_online();
 		do_op(me, op);
-		if (F->is_qsbr)
+		if (F->is_qsbr && !(op->kind == K_RESIZE && (op->b & 1)))
 			F->thread_offline();
 	}
 	usim_quiet_vote();
@@ -389,7 +394,7 @@ static void gen(void)
 		key_hash[k] = hash_pool[rnd(sizeof(hash_pool) / sizeof(hash_pool[0]))];
 		if (k > 0 && rnd(3) == 0)
 			key_hash[k] = key_hash[rnd(k)];	/* different keys, same hash */
-		key_unique[k] = mode == M_LIN ? (int) rnd(2) : mode == M_RESIZE ? (int) rnd(2) : 1;
+		key_unique[k] = mode == M_LIN ? (int) rnd(2) : 1;
 		if (k >= 3)
 			key_unique[k] = 1;
 		if (key_unique[k])
@@ -534,9 +539,54 @@ static void run_common(int m)
 	F->read_unlock();
 	hor_check(unique_mask);
 	for (k = 0; k < 3; k++) {
-		if (!wgl_check(&HK[k], why, sizeof(why)))
+		if (!wgl_check(&HK[k], why, sizeof(why))) {
+			/*
+			 * Classify. If the history becomes linearizable once "absent" lookup
+			 * results are left unconstrained (the presence oracle above has already
+			 * established that no node present for a whole lookup was missed), the
+			 * only anomaly is a lookup that reported a duplicated key absent although
+			 * at every instant some node of that key was stored.
+			 */
+			static struct wgl_hist relaxed;
+			static char why2[3000];
+			int variant;
+			/*
+			 * Keys on which plain cds_lfht_add() creates duplicates: try the two
+			 * known per-node (rather than per-key) behaviours, alone and together.
+			 *  1: an "absent" lookup result is left unconstrained (the presence
+			 *     oracle already showed that no node stored for the whole call was missed)
+			 *  2: add_unique/add_replace that inserted "because the key was absent"
+			 *     is treated as a plain add (it did not notice a duplicate appended by add)
+			 */
+			for (variant = 1; variant <= 3 && !key_unique[k]; variant++) {
+				int changed = 0;
+				relaxed = HK[k];
+				for (i = 0; i < relaxed.n; i++) {
+					struct wgl_op *o = &relaxed.ops[i];
+					if ((variant & 1) && o->kind == WH_LOOKUP && o->r < 0) {
+						o->kind = WH_ABSENT_OK;
+						changed++;
+					}
+					if ((variant & 2) && ((o->kind == WH_ADD_UNIQUE && o->r == o->b) ||
+							      (o->kind == WH_ADD_REPLACE && o->r < 0))) {
+						o->kind = WH_ADD;
+						o->r = 0;
+						changed++;
+					}
+				}
+				if (changed && wgl_check(&relaxed, why2, sizeof(why2)))
+					usim_fail(variant == 1 ? "lookup-absent-under-duplicate-churn" :
+						  variant == 2 ? "unique-add-blind-to-appended-duplicate" :
+						  "duplicate-key-nonatomic-lookup-and-unique-add",
+						"key %d (hash %#lx) holds duplicates created by cds_lfht_add(): %s; otherwise the history is linearizable: %s",
+						key_val[k], key_hash[k],
+						variant == 1 ? "a lookup returned NULL although at every instant of the call some node with that key was stored" :
+						variant == 2 ? "add_unique/add_replace inserted as if the key were absent although a duplicate appended by cds_lfht_add() was stored during the whole call" :
+						"both a NULL lookup and a blind add_unique/add_replace", why);
+			}
 			usim_fail("not-linearizable", "hash table history of key %d (hash %#lx) is not linearizable against a multiset-per-key model: %s",
 				key_val[k], key_hash[k], why);
+		}
 		if (wgl_has_overlap(&HK[k]))
 			usim_mark_nontrivial();
 		usim_probe_n("wgl.states", HK[k].states_explored);
